@@ -26,6 +26,7 @@ PT = {
                                '{ static constexpr auto origin() { return au::kelvins(300); } };', u=Fr(2), o=Fr(300)),
     'X5': dict(ty='VP_X5', inc='#include "au/units/kelvins.hh"\n//--\nstruct VP_X5 : decltype(au::Kelvins{} / au::mag<4>()) '
                                '{ static constexpr auto origin() { return (au::kelvins / au::mag<4>())(1001); } };', u=Fr(1, 4), o=Fr(1001, 4)),
+    'cC': dict(ty='au::Centi<au::Celsius>', inc='#include "au/units/celsius.hh"\n//--\n#include "au/prefix.hh"', u=Fr(1, 100), o=Fr(27315, 100)),
     # three units whose origins need different granularities (1/10 K, none, 1/1000 K), with the lowest origin on the unit that sorts in the middle
     'X6': dict(ty='VP_X6', inc='#include "au/units/kelvins.hh"\n//--\nstruct VP_X6 : au::Kelvins '
                                '{ static constexpr auto origin() { return (au::kelvins / au::mag<10>())(5); } };', u=Fr(1), o=Fr(1, 2)),
@@ -104,6 +105,26 @@ def obligations(tier, seed):
         obs.append(Ob(id='C09.convrep.%s' % tag, prop='C09', group='C09.rep.%s_%s' % (sname, tname), prelude=prelude(sname, tname), wrappers=[w], inputs=[(c1, 'x')], body=body,
                       contract='forall %s x whose exact result fits %s%s: %s_pt(x).coerce_in<%s>(%s) == trunc((x*%d + %d) / %d); no UB:*' % (c1, c2, bound, sname, c2, tname, A, B, Dn),
                       functions_under_contract=('au::QuantityPoint::coerce_in<NewRep>', 'au::QuantityPoint::in<NewRep>', 'au::detail::IntermediateRep')))
+    # ---- reps NARROWER than int (integer promotion between the origin shift and the scaling), every x for which the property's precondition holds:
+    #      the displacement from the target origin, in source units, and the true result are representable in the rep
+    narrow = [('cC', 'K', 'u16'), ('cC', 'K', 'i16'), ('cC', 'C', 'u16'), ('K', 'X2', 'u8'), ('K', 'X2', 'i8'), ('C', 'cC', 'i16'), ('X5', 'X4', 'u16'), ('X4', 'X5', 'u16'), ('X5', 'K', 'u16')]
+    for (s_, t_, rep) in narrow:
+        ct = G.ctype(rep)
+        A, B, Dn = affine(s_, t_)
+        tag = '%s_%s_%s' % (s_, t_, rep)
+        w = Wrapper('w_ptn_' + tag, ct, [(ct, 'x')], 'return au::make_quantity_point<%s>(x).coerce_in(%s{});' % (PT[s_]['ty'], PT[t_]['ty']))
+        wa = Wrapper('w_ptnas_' + tag, ct, [(ct, 'x')], 'return au::make_quantity_point<%s>(x).coerce_as(%s{}).in(%s{});' % (PT[s_]['ty'], PT[t_]['ty'], PT[t_]['ty']))
+        num = '((i128)x * %s + %s)' % (G.lit(A), G.lit(B))
+        body = '''
+  ASSUME(FITS(%s, %s));                    /* the displacement from the target origin (numerator of the affine map) is representable in the rep */
+  ASSUME(FITS(%s, %s / %s));               /* and so is the true result */
+  CHECK((i128)%s(x) == %s / %s, "point-conversion-applies-the-exact-affine-map");
+  CHECK((i128)%s(x) == %s / %s, "coerce_as-agrees");
+''' % (rep, num, rep, num, G.lit(Dn), w.name, num, G.lit(Dn), wa.name, num, G.lit(Dn))
+        obs.append(Ob(id='C09.conv-narrow.%s' % tag, prop='C09', group='C09.n.%s_%s' % (s_, t_), prelude=prelude(s_, t_), wrappers=[w, wa], inputs=[(ct, 'x')], body=body,
+                      contract='forall %s x whose displacement from the target origin (x*%d + %d, in units of 1/%d of the target unit) and whose true result fit %s: %s_pt(x).coerce_in(%s_pt) == trunc((x*%d + %d) / %d) '
+                               '(rep narrower than int: the origin shift must be brought back into the rep before it is scaled); no UB:*' % (ct, A, B, Dn, ct, s_, t_, A, B, Dn),
+                      functions_under_contract=('au::QuantityPoint::coerce_in', 'au::QuantityPoint::in<NewRep>', 'au::detail::IntermediateRep')))
     # ---- two-point operations: comparisons, point - point, point +/- quantity
     pp = [('C', 'K'), ('F', 'C'), ('K', 'mK'), ('X1', 'X2'), ('F', 'X3')] if tier == 'quick' else [(s, t) for s in names for t in names if s < t]
     fine_ty = 'VP_FINE'
